@@ -454,6 +454,7 @@ impl TCheck for C13 {
             hard_fault: false,
             one_cpu: false,
             post: None,
+            max_scheds: None,
         }
     }
     fn history_oracle(&self, events: &[crate::exec::Event], _report: &BodyReport) -> Vec<String> {
